@@ -425,6 +425,91 @@ def _rule3(ctx, rep):
             'sanctioned(self.__uri, cert)',
             'sanctioned() is not called exactly once with the registered uri of this endpoint',
         )
+        # (b') the certificate handed to sanctioned() keeps the anonymity marker: is_sanctioned recognises an anonymous
+        # caller by `cert is None`, so a peer certificate that may be None must not be wrapped in a constructor call
+        # before the check (added after seeded change C19-4: Certificate(getPeerCertificate()) is never None)
+        class Prov(Flow):
+            """state = frozenset((var, tag)); tags: raw (peer certificate, may be None), rawnn (peer certificate, known
+            not None), none, ok (built from a not-None certificate), lost (built from a certificate that may be None)"""
+
+            def __init__(s):
+                super().__init__()
+                s.at_check = []
+
+            def tag(s, e, st):
+                env = dict(st)
+                if isinstance(e, ast.Constant):
+                    return 'none' if e.value is None else 'other'
+                if isinstance(e, ast.Name):
+                    return env.get(e.id, 'other')
+                if isinstance(e, ast.IfExp):
+                    t, f = s.cond(e.test, {st})
+                    tags = {s.tag(e.body, x) for x in t} | {s.tag(e.orelse, x) for x in f}
+                    if 'lost' in tags:
+                        return 'lost'
+                    if len(tags) == 1:
+                        return tags.pop()
+                    if tags <= {'raw', 'rawnn', 'none', 'ok'}:
+                        return 'raw' if tags <= {'raw', 'rawnn', 'none'} else 'ok'
+                    return 'other'
+                if isinstance(e, ast.Call):
+                    fn = e.func
+                    if isinstance(fn, ast.Attribute) and fn.attr == 'getPeerCertificate':
+                        return 'raw'
+                    if isinstance(fn, ast.Call) and call_name(fn) == 'getattr' and len(fn.args) >= 2 and isinstance(fn.args[1], ast.Constant) and fn.args[1].value == 'getPeerCertificate':
+                        return 'raw'
+                    inner = {s.tag(a, st) for a in list(e.args) + [k.value for k in e.keywords]}
+                    if 'raw' in inner or 'lost' in inner:
+                        return 'lost'
+                    if 'rawnn' in inner or 'ok' in inner:
+                        return 'ok'
+                return 'other'
+
+            def on_stmt(s, node, st):
+                if isinstance(node, ast.Assign) and len(node.targets) == 1 and isinstance(node.targets[0], ast.Name):
+                    d = dict(st)
+                    d[node.targets[0].id] = s.tag(node.value, st)
+                    return (frozenset(d.items()),)
+                return (st,)
+
+            def on_test(s, e, st):
+                env = dict(st)
+
+                def split(name, none_when_true):
+                    if env.get(name) != 'raw':
+                        return (st,), (st,)
+                    a = frozenset({**env, name: 'none'}.items())
+                    b = frozenset({**env, name: 'rawnn'}.items())
+                    return ((a,), (b,)) if none_when_true else ((b,), (a,))
+
+                if isinstance(e, ast.Name):
+                    return split(e.id, False)
+                if isinstance(e, ast.Compare) and len(e.ops) == 1 and isinstance(e.left, ast.Name) and isinstance(e.comparators[0], ast.Constant) and e.comparators[0].value is None:
+                    if isinstance(e.ops[0], (ast.Is, ast.Eq)):
+                        return split(e.left.id, True)
+                    if isinstance(e.ops[0], (ast.IsNot, ast.NotEq)):
+                        return split(e.left.id, False)
+                return (st,), (st,)
+
+            def on_call(s, call, st):
+                if prog.resolve_in(call.func, g) == 'dawgie.security.sanctioned' and len(call.args) == 2:
+                    s.at_check.append((call, s.tag(call.args[1], st)))
+                return (st,)
+
+        pv = Prov()
+        pv.run(g.node, frozenset())
+        r.instance()
+        if not pv.at_check:
+            raise AnalysisError('DynamicContent.__render: no sanctioned(uri, cert) call reached')
+        lost = [c for c, tg in pv.at_check if tg == 'lost']
+        r.check(
+            not lost,
+            f'{g.qname}:anonymity-marker',
+            where(g, lost[0] if lost else pv.at_check[0][0]),
+            'the certificate passed to sanctioned() is the transport peer certificate itself, None, or built from it only where it is known not to be None',
+            'the certificate passed to sanctioned() is built by a call from a peer certificate that may be None: the result is never None, so '
+            'is_sanctioned (which recognises an anonymous caller by `cert is None`) treats every caller on a TLS transport as certified',
+        )
         # (c) every render_* goes through __render
         cls = prog.cls('dawgie.fe.basis.DynamicContent')
         for name, m in sorted(cls.methods.items()):
@@ -544,6 +629,8 @@ VARIANTS = [
     V('handler called before the check', 'B', 'fe/basis.py', 'DynamicContent.__render', 'if not dawgie.security.sanctioned(self.__uri, cert):', 'resp = self.__fnc()\n        if not dawgie.security.sanctioned(self.__uri, cert):', 'R-C19-3'),
     V('anonymous unlisted granted', 'B', 'security.py', 'is_sanctioned', 'if cert is None:\n            return False', 'if cert is None:\n            return True', 'R-C19-3'),
     V('render_PUT bypasses check', 'B', 'fe/basis.py', 'DynamicContent.render_PUT', 'return self.__render(req, HttpMethod.PUT)', 'return self.__fnc()', 'R-C19-3'),
+    V('peer certificate wrapped before the check', 'B', 'fe/basis.py', 'DynamicContent.__render', 'cert = request.transport.getPeerCertificate()', 'cert = dict(x509=request.transport.getPeerCertificate())', 'R-C19-3'),
+    V('peer certificate wrapped only when present', 'N', 'fe/basis.py', 'DynamicContent.__render', 'cert = request.transport.getPeerCertificate()', 'raw = request.transport.getPeerCertificate()\n            cert = dict(x509=raw) if raw is not None else None', None),
     V('rename flag', 'N', 'fe/__init__.py', '_static', 'if valid and ffn.is_file():', 'if ffn.is_file() and valid:', None),
     V('read-only endpoint added to allow-list', 'N', 'security.py', 'is_sanctioned', "'/api/ae/name',", "'/api/ae/name', '/api/some/new/view',", None),
 ]
